@@ -4,6 +4,7 @@ Property theorems only.
 -/
 import Compress.Proofs.BitIOExact
 import Compress.Proofs.FlateRefine
+import Compress.Proofs.FlatePrefix
 
 namespace Compress.Props.C11
 open Compress Compress.Prefix Compress.Proofs.PrefixTables Compress.Proofs.BitIOExact
@@ -47,5 +48,37 @@ theorem C11_flate_input_offset (bytes : List UInt8) (sched : List Nat)
       (Flate.Impl.init (Bits.ofBytes bytes)) sched
     r.2.2.total - r.2.2.bits.length = n :=
   (Compress.Proofs.FlateRefine.impl_refines_spec bytes sched hs).2.2 n hv
+
+/-- **Flush point.** Give the reader model only the first `k` bytes of a valid stream - the bytes a
+    compressor had handed to its sink when a flush returned - and nothing more (every request beyond
+    them ends the run).  For every Read schedule it delivers, before it reports unexpected EOF,
+    exactly what the RFC 1951 specification decodes from those `k` bytes alone: every block the
+    flush completed is delivered without a single byte from beyond the flush point, and what is
+    delivered is a prefix of the full output.  (That the bit reader underneath takes no byte beyond
+    those holding the bits it hands out is `C11_counters_exact`.) -/
+theorem C11_flush_point (bytes : List UInt8) (out : Array UInt8)
+    (h : Flate.decode bytes = { out := out, verdict := .ok (8 * bytes.length) })
+    (k : Nat) (hk : k < bytes.length) (sched : List Nat)
+    (hs : ∀ n, sched.getLast? = some n → 0 < n) :
+    let cut := Bits.ofBytes (bytes.take k)
+    let r := Flate.Impl.run (Compress.Proofs.FlateRefine.runFuel cut sched) (Flate.Impl.init cut) sched
+    r.1 = (Flate.decode (bytes.take k)).out.toList ∧ r.1 <+: out.toList ∧
+    r.2.1 = some .unexpectedEOF := by
+  intro cut r
+  have hr := Compress.Proofs.FlateRefine.impl_refines_spec (bytes.take k) sched hs
+  have hc := Compress.Proofs.FlatePrefix.decode_cut bytes out h k hk
+  refine ⟨hr.1, ?_, ?_⟩
+  · show r.1 <+: out.toList
+    have : r.1 = (Flate.decode (bytes.take k)).out.toList := hr.1
+    rw [this]; exact hc.2
+  · have h2 : r.2.1 = some (Compress.Proofs.FlateRefine.errOf (Flate.decode (bytes.take k)).verdict) := hr.2.1
+    rw [h2, hc.1]; rfl
+
+/-- non-vacuity of `C11_flush_point`: two stored blocks, the first ("A", non-final) completed by a
+    flush after 6 bytes; the 6-byte cut decodes to "A" and then wants more input. -/
+example : (Flate.decode [0x00, 0x01, 0x00, 0xfe, 0xff, 0x41, 0x01, 0x00, 0x00, 0xff, 0xff]).verdict = .ok 88 ∧
+    (Flate.decode ([0x00, 0x01, 0x00, 0xfe, 0xff, 0x41, 0x01, 0x00, 0x00, 0xff, 0xff].take 6)).out = #[0x41] ∧
+    (Flate.decode ([0x00, 0x01, 0x00, 0xfe, 0xff, 0x41, 0x01, 0x00, 0x00, 0xff, 0xff].take 6)).verdict = .unexpectedEOF := by
+  decide
 
 end Compress.Props.C11
